@@ -14,6 +14,8 @@ theorem slice_bounds_eq (i len n : Nat) :
   constructor <;> first | rfl | simp [Gen.C07.sliceStart, Gen.C07.sliceEnd, bound, Nat.mul_comm, Nat.add_comm]
 
 -- OBLIGATION: PysparklingVerif.Extracted.C07.coalesceMapping_eq
+/-- equality of two expressions; both read `// 0` and `% 0` as Lean does, so at `m = 0` with `cur ≥ 1` (where the code
+raises ZeroDivisionError) this says nothing about the code - the property theorems that use the mapping carry `1 ≤ m` -/
 theorem coalesceMapping_eq (cur m : Nat) : Gen.C07.coalesceMapping cur m = coalesceMapping cur m := by
   simp only [Gen.C07.coalesceMapping, coalesceMapping, List.range'_eq_map_range, Nat.add_sub_cancel_left] <;>
     first
